@@ -45,9 +45,9 @@ def gen_cases(ck):
         else:
             add("proxy", tree, {"class": "corpus"}, meth=c["meth"])
 
-    n_sample = 150 if quick else 1500
-    n_perm_frames = 5 if quick else 25
-    n_dup_frames = 4 if quick else 20
+    n_sample = 260 if quick else 1500
+    n_perm_frames = 8 if quick else 25
+    n_dup_frames = 6 if quick else 20
     for pname in eg.PTYPES:
         for ename in eg.ETYPES:
             for tree in REGRESSION:
